@@ -139,17 +139,15 @@ def run(case, bct, REC):
         REC.tag(PROP, 'exec')
         clause = 'rejects_disconnected' if kind == 'neg_disconnected' else 'rejects_asymmetric'
         fn = getattr(bct, f)
-        try:
-            if f in RW.LAT:
-                fn(R, 1, seed=case.get('ws', 0))
-            else:
-                fn(R, 1, seed=case.get('ws', 0))
-            REC.check(PROP, f, clause, False, {'R': R, 'outcome': 'returned'})
-        except bct.BCTParamError:
-            REC.check(PROP, f, clause, True)
-            REC.note_nontrivial(PROP, f, clause, R)
-        except Exception as e:  # noqa
-            REC.check(PROP, f, clause, False, {'R': R, 'outcome': repr(e)[:200]})
+        for itr in (1, 0, 3):      # invalid input is invalid whatever the rewiring budget
+            try:
+                fn(R, itr, seed=case.get('ws', 0))
+                REC.check(PROP, f, clause, False, {'R': R, 'itr': itr, 'outcome': 'returned'}, ('itr=%d' % itr,))
+            except bct.BCTParamError:
+                REC.check(PROP, f, clause, True)
+                REC.note_nontrivial(PROP, f, clause, R, itr)
+            except Exception as e:  # noqa
+                REC.check(PROP, f, clause, False, {'R': R, 'itr': itr, 'outcome': repr(e)[:200]}, ('itr=%d' % itr,))
         return
     if not two_disjoint_edges(R, directed):
         REC.tag(PROP, 'out_of_domain_skipped')
